@@ -155,6 +155,38 @@ def collect(conds):
 ONE_SIDED = False
 
 
+def map_cond(c, fn):
+  """condition tree with fn applied to every Poly operand"""
+  k = c[0]
+  if k == "not":
+    return ("not", map_cond(c[1], fn))
+  if k in ("and", "or"):
+    return (k, [map_cond(x, fn) for x in c[1]])
+  if k == "cmp":
+    return ("cmp", c[1], fn(c[2]) if isinstance(c[2], Poly) else c[2], fn(c[3]) if isinstance(c[3], Poly) else c[3])
+  if k == "truthy" and isinstance(c[1], Poly):
+    return ("truthy", fn(c[1]))
+  return c
+
+
+def _bytelen_lemma(p):
+  from . import sym as _sym
+  out = p
+  for a in p.all_atoms():
+    if a.kind == "len" and len(a.args) == 1 and isinstance(a.args[0], Poly):
+      m = a.args[0].as_atom()
+      if m is not None and m.kind in ("mcall", "pm") and len(m.args) == 3 and repr(m.args[1]) == "lit('lstrip')" and isinstance(m.args[2], Poly) \
+         and m.args[2].as_atom() is not None and m.args[2].as_atom().kind == "lit" and m.args[2].as_atom().args[0] == repr(b"\x00"):
+        field = m.args[0]
+        val = _sym.mk("bitlen", _sym.mk("call", Poly.atom(Atom("lit", "util:Bytes2Int")), field))
+        out = out.deep_subst(a, _sym.mk("fdiv", val + 7, Poly.const(8)))
+  return _sym.rebuild(out) if out is not p else p
+
+
+def _lemma_applied(pos_paths):
+  return False
+
+
 def equivalent_dnf(pos_paths, spec, main=None, extra_atoms=(), spec_consts=()):
   """pos_paths: list of conjunctions [(cond, polarity), ...] under which the code takes the action.
   spec: callable(Valuation) -> bool.  main: the Poly (single atom) whose regions are enumerated.
@@ -167,6 +199,29 @@ def equivalent_dnf(pos_paths, spec, main=None, extra_atoms=(), spec_consts=()):
   main_atom = as_poly(main).as_atom() if main is not None else None
   if main is not None and main_atom is None:
     return None, "main term is not atomic"
+  mentioned = set()
+  for c in conds:
+    for a in cond_atoms(c):
+      for side in a[1:]:
+        if isinstance(side, Poly):
+          mentioned |= side.all_atoms()
+  if main_atom is not None and conds and main_atom not in mentioned and main_atom.kind == "bitlen" and not _lemma_applied(pos_paths):
+    # byte-length lemma: len(b.lstrip(b"\0")) = ceil(bit_length(int(b)) / 8) for a big-endian encoding b
+    rew = [[(map_cond(c, _bytelen_lemma), pol) for c, pol in path] for path in pos_paths]
+    if rew != pos_paths:
+      return equivalent_dnf(rew, spec, main, extra_atoms, spec_consts)
+  if main_atom is not None and conds and main_atom not in mentioned:
+    # the code never tests the quantity the criterion is about.  Enumerating regions would treat the two as independent, which they are not.
+    inner = [x.as_atom() for x in main_atom.args if isinstance(x, Poly) and x.as_atom() is not None and x.as_atom().kind != "lit"]
+    raw = [a for a in atoms if a in inner]
+    if raw and main_atom.kind in ("call", "extcall"):
+      return False, ("the code compares the raw value %s instead of %s: two encodings of the same integer (leading zero bytes) compare unequal, "
+                     "so artifacts that do not meet the criterion are flagged" % (repr(raw[0])[:70], repr(main_atom)[:70]))
+    dep = [x for x in inner if x in mentioned]
+    if dep:
+      return None, "the code's condition never mentions %s but tests %s, on which it depends: equivalence with the criterion cannot be decided by region enumeration" % (
+          repr(main_atom)[:80], repr(dep[0])[:60])
+    # otherwise the code tests quantities independent of the criterion's: the enumeration below is valid (and will find the disagreement)
   if main_atom is not None:
     atoms.add(main_atom)
   others = sorted((a for a in atoms if a != main_atom), key=repr)
